@@ -12,6 +12,21 @@ the outcomes that actually occurred are then forced on the rewritten circuit, wh
 same stabilizer state (canonical signed form, `tabutil.stab_canon`); small circuits also through the density-matrix
 backend.
 
+Part A' (topological order; direct oracle of the Lean theorem `compiled_tableau_independent_of_topological_order` on the real
+compiler).  The real `StabilizerCompiler.compile` is run on a duck-typed view of the circuit whose `sequence()` follows a
+*random linear extension* of the DAG (random Kahn order) instead of the order `networkx.topological_sort` returns; the
+outcomes that occurred in the default order are forced operation by operation; the recorded outcomes and the final
+stabilizer state (canonical signed form) must be the same (for small circuits also through the DensityMatrixCompiler).  The model must accept the order as a linear extension
+(`assign_noise` of the model rejects anything else).  Testing only (the theorem is about the model `stabRun`).
+
+Part A'' (the bridge of the refinement theorems).  `compile_loop_refines_stabilizer_semantics` speaks about
+`stabRun … ((c.sops seq).map toCOp)`.  That `(c.sops seq).map toCOp` *is* the sequence of operations the real compiler executes
+is checked here: the Lean definitions themselves are evaluated (a generated script, `lake env lean`, prints
+`(c.sops seq).map Commute.toCOp` for the wire snapshot of each real circuit and node order, and whether `Commute.decode` accepts
+every operation), the result must equal the real `sequence(unwrapped=True)` (identities and I/O nodes dropped) token for token,
+and the model's `circ.stab` run on exactly that list must reproduce the real StabilizerCompiler's outcomes and state (both
+forced-outcome settings).
+
 Part B (aliasing; testing by nature — a functional model cannot exhibit Python object aliasing).  Random interleavings of
 library calls on shared objects (compile with both backends and all determinism modes, every metric's `evaluate`,
 `TimeReversedSolver`, `assign_noise`, `MonteCarloNoise`, `copy`, the rewrites on copies, `compare`, `to_openqasm`,
@@ -19,7 +34,10 @@ depth queries); before/after fingerprints of every live input: openQASM text, wi
 noise descriptors, compiled state (both backends when small), target representation type and canonical data.
 """
 import copy
+import functools
 import itertools
+import os
+import subprocess
 import time
 import warnings
 
@@ -28,6 +46,7 @@ import numpy as np
 
 from harness import tabutil as tu
 from harness import wireutil as wu
+from harness import common
 from harness.common import Driver, Result, err_class
 
 LEVEL = "proof"
@@ -35,7 +54,8 @@ TRUSTED_BASE = [
     "Lean 4.33 kernel",
     "hand-written model GraphiqModel/Model/Wire.lean (copy, unwrap_nodes, remove_identity, group_one_qubit_gates, assign_noise, flat) tied to circuit_dag.py / circuit_base.py by this correspondence run",
     "networkx topological_sort returns a linear extension (checked on every observed call by the model: assign_noise rejects a sequence that is not one)",
-    "operations on disjoint registers commute (hypothesis of the theorem that the denotation factors through flat; textbook)",
+    "stabilizer semantics of the compile sequence: the commutation of operations on disjoint quantum registers is PROVED (Properties/C13 §2b, Proofs/Commute*.lean) on C07's group transformers and tied to the compile loop stabRun by refinement and completeness theorems (§2c); trusted there: that stabRun models StabilizerCompiler.compile_one_gate (C01 correspondence) and that (c.sops seq).map toCOp is the sequence the real compiler executes (part A'': the Lean definitions are evaluated on the snapshot of every sampled real circuit/order and compared token for token with the real sequence(unwrapped=True); the model run on that list is compared with the real compile), the density-matrix backend (compared per circuit and branch)",
+    "part A'': `lake env lean` evaluates a generated script that imports Driver.CmdWire (snapshot parser) and Proofs/CommuteRefine (toCOp, decode)",
     "aliasing half: differential testing only — Python object aliasing is outside a functional model (DESIGN §4 C13, §7.6)",
     "harness: wire snapshot, scripted-outcome compilers (subclasses of the public compilers), stab_canon",
 ]
@@ -141,6 +161,7 @@ def make_scripted(base_cls):
             self.want = dict(want)
             self.default = default
             self.got = {}
+            self.got_list = []
             self._seen = {}
 
         def compile_one_gate(self, state, op, n_quantum, q_index, classical_registers):
@@ -153,6 +174,7 @@ def make_scripted(base_cls):
                 self.measurement_determinism = self.want.get(key, self.default)
                 super().compile_one_gate(state, op, n_quantum, q_index, classical_registers)
                 self.got[key] = int(classical_registers[op.c_registers[0]])
+                self.got_list.append(self.got[key])
             else:
                 super().compile_one_gate(state, op, n_quantum, q_index, classical_registers)
 
@@ -320,6 +342,239 @@ def check_rewrites(ctx, res, drv, circ, tag, with_dm):
             res.exact_break("wire.flat:" + name, input=inp, impl=rf1["_raw"][:300], model=rf0["_raw"][:300])
             continue
         res.sample(f"{cmd} {enc} -> {r['_raw']}"[:590])
+
+
+# ------------------------------------------------------------------------------------------------------------ part A'
+class Reordered:
+    """duck-typed view of a circuit whose `sequence()` follows a given order of all DAG nodes (everything else is delegated)"""
+
+    def __init__(self, circ, order):
+        self._c = circ
+        self._order = list(order)
+
+    def __getattr__(self, name):
+        return getattr(self._c, name)
+
+    def sequence(self, unwrapped=False):
+        op_list = [self._c.dag.nodes[n]["op"] for n in self._order]
+        if not unwrapped:
+            return op_list
+        return functools.reduce(lambda x, y: x + y.unwrap(), op_list, [])
+
+
+def random_linear_extension(rng, dag):
+    """random Kahn order of a (multi)digraph; nodes are visited in a reproducible base order"""
+    indeg = {n: 0 for n in dag.nodes}
+    for u, v in dag.edges():
+        indeg[v] += 1
+    ready = [n for n in dag.nodes if indeg[n] == 0]
+    out = []
+    while ready:
+        n = ready.pop(rng.randrange(len(ready)))
+        out.append(n)
+        for _, v in dag.out_edges(n):
+            indeg[v] -= 1
+            if indeg[v] == 0:
+                ready.append(v)
+    return out
+
+
+def check_orders(ctx, res, drv, circ, tag, n_orders=2, with_dm=False):
+    snap = wu.snapshot(circ)
+    if len(snap["nodes"]) < 2:
+        return
+    enc = wu.encode(snap)
+    default = [n for n in nx.topological_sort(circ.dag)]
+    default_ops = [n for n in default if not isinstance(n, str)]
+    m = n_measuring(circ)
+    for _ in range(n_orders):
+        order = random_linear_extension(ctx.rng, circ.dag)
+        op_order = [n for n in order if not isinstance(n, str)]
+        inp = {"circuit": enc, "order": ",".join(map(str, op_order)), "gen": tag}
+        res.evaluations += 1
+        res.branch(["order:same" if op_order == default_ops else "order:different"])
+        if op_order != default_ops:
+            res.nontrivial(wu.shape(snap), "order", tuple(op_order))
+        # the model accepts the order as a linear extension (and re-adding along it keeps flat)
+        r, rf0 = drv.batch([f"wire.assign seq={','.join(map(str, op_order))} {enc}", f"wire.flat {enc}"])
+        if r["_status"] != "ok":
+            res.exact_break("isLinearExtension", input=inp, impl="a Kahn order of circ.dag", model=r["_raw"][:300])
+            continue
+        view = Reordered(circ, order)
+        scripts = [({}, 0), ({}, 1)]
+        if m:
+            got0, _ = run_sem(circ, {}, 0, "stab")
+            keys = sorted(got0)
+            for _k in range(2):
+                scripts.append(({k: ctx.rng.randrange(2) for k in keys}, 0))
+        for want, dflt in scripts:
+            try:
+                got, st = run_sem(circ, want, dflt, "stab")
+                got2, st2 = run_sem(view, got, dflt, "stab")
+            except Exception as e:  # noqa: BLE001
+                res.violation("order:raised", "compile along any topological order returns the state", input=inp,
+                              impl=f"{type(e).__name__}: {e}"[:300])
+                break
+            if got2 != got:
+                res.violation("order:outcomes-changed", "the same outcomes are possible along every topological order", input=inp,
+                              impl=f"forcing {sorted(got.items())} gives {sorted(got2.items())}")
+                break
+            if st != st2:
+                res.violation("order:state-changed", "the compiled state does not depend on the topological order", input=inp,
+                              impl=f"different final state for outcomes {sorted(got.items())}")
+                break
+            if with_dm:
+                # the density-matrix backend (not covered by the Lean theorem) along the same two orders
+                try:
+                    gd, sd = run_sem(circ, got, dflt, "dm")
+                    gd2, sd2 = run_sem(view, got, dflt, "dm")
+                except Exception as e:  # noqa: BLE001
+                    res.violation("order:dm:raised", "compile along any topological order returns the state", input=inp,
+                                  impl=f"{type(e).__name__}: {e}"[:300])
+                    break
+                res.branch(["order:dm"])
+                if gd2 != gd or not np.allclose(np.array(sd), np.array(sd2), atol=1e-7):
+                    res.violation("order:dm:state-changed", "the compiled state does not depend on the topological order (density-matrix backend)",
+                                  input=inp, impl=f"outcomes {sorted(gd.items())} vs {sorted(gd2.items())}")
+                    break
+
+
+# ------------------------------------------------------------------------------------------------------------ part A''
+LEAN_PRELUDE = """import Driver.CmdWire
+import GraphiqModel.Proofs.CommuteRefine
+open Graphiq Graphiq.Proto
+
+def showQ (q : QReg) : String := (match q.ty with | .e => "e" | .p => "p") ++ toString q.idx
+
+def showCOp : COp → String
+  | .gate1 .I q => s!"I:{showQ q}" | .gate1 .H q => s!"H:{showQ q}" | .gate1 .P q => s!"P:{showQ q}"
+  | .gate1 .X q => s!"X:{showQ q}" | .gate1 .Y q => s!"Y:{showQ q}" | .gate1 .Z q => s!"Z:{showQ q}"
+  | .pdag q => s!"PD:{showQ q}"
+  | .cnot c t => s!"CX:{showQ c}:{showQ t}" | .cz c t => s!"CZ:{showQ c}:{showQ t}"
+  | .ccx c t r => s!"CCX:{showQ c}:{showQ t}:c{r}" | .ccz c t r => s!"CCZ:{showQ c}:{showQ t}:c{r}"
+  | .mcr c t r => s!"MCR:{showQ c}:{showQ t}:c{r}" | .measz q r => s!"MZ:{showQ q}:c{r}"
+  | .wrap _ q => s!"W:{showQ q}"
+
+def seqLine (enc seq : String) : String :=
+  match CmdWire.circuitOf (parseLine ("x " ++ enc)).2 with
+  | none => "err parse"
+  | some c =>
+    let l := c.sops (natsOf ',' seq)
+    let ok := l.all fun a => (Commute.decode c.ne c.np a).isSome && decide a.regs.Nodup
+    s!"ok dec={b01 ok} lin={b01 (c.isLinearExtension (natsOf ',' seq))} ops=" ++
+      (if l.isEmpty then "-" else String.intercalate "," ((l.map Commute.toCOp).map showCOp))
+
+"""
+
+PY_TOK1 = {"Hadamard": "H", "Phase": "P", "PhaseDagger": "PD", "SigmaX": "X", "SigmaY": "Y", "SigmaZ": "Z"}
+
+
+def py_cops(seq_ops):
+    """the real `sequence(unwrapped=True)` as `circ.stab` tokens: identities and I/O nodes dropped (both compilers skip them)"""
+    out = []
+    for op in seq_ops:
+        name = type(op).__name__
+        if name in ("Input", "Output", "Identity"):
+            continue
+        if name in PY_TOK1:
+            out.append(f"{PY_TOK1[name]}:{op.reg_type}{op.register}")
+        elif name == "CNOT":
+            out.append(f"CX:{op.control_type}{op.control}:{op.target_type}{op.target}")
+        elif name == "CZ":
+            out.append(f"CZ:{op.control_type}{op.control}:{op.target_type}{op.target}")
+        elif name in ("ClassicalCNOT", "ClassicalCZ", "MeasurementCNOTandReset"):
+            tok = {"ClassicalCNOT": "CCX", "ClassicalCZ": "CCZ", "MeasurementCNOTandReset": "MCR"}[name]
+            out.append(f"{tok}:{op.control_type}{op.control}:{op.target_type}{op.target}:c{op.c_register}")
+        elif name == "MeasurementZ":
+            out.append(f"MZ:{op.reg_type}{op.register}:c{op.c_register}")
+        else:
+            raise wu.OutOfModel(name)
+    return ",".join(out) or "-"
+
+
+def lean_eval(lines):
+    """evaluate `seqLine enc seq` for every (enc, seq) with the Lean definitions themselves; -> list of reply strings"""
+    path = os.path.join(common.VERIF, "scratch", f"c13_seq_{os.getpid()}.lean")
+    os.makedirs(os.path.dirname(path), exist_ok=True)
+
+    def q(x):
+        return '"' + x.replace("\\", "\\\\").replace('"', '\\"') + '"'
+
+    with open(path, "w") as f:
+        f.write(LEAN_PRELUDE)
+        for enc, seq in lines:
+            f.write(f"#eval IO.println (seqLine {q(enc)} {q(seq)})\n")
+    try:
+        p = subprocess.run(["lake", "env", "lean", path], cwd=common.LEAN_DIR, capture_output=True, text=True, timeout=600)
+    finally:
+        try:
+            os.remove(path)
+        except OSError:
+            pass
+    out = [ln for ln in p.stdout.splitlines() if ln.startswith("ok ") or ln.startswith("err ")]
+    if p.returncode != 0 or len(out) != len(lines):
+        raise RuntimeError("lean script for (c.sops seq).map toCOp failed: " + (p.stdout + p.stderr)[-600:])
+    return out
+
+
+def check_model_compile(ctx, res, drv, cases):
+    """cases: list of (circuit, full node order or None, tag)"""
+    from graphiq.backends.stabilizer.compiler import StabilizerCompiler
+
+    todo = []
+    for circ, order, tag in cases:
+        snap = wu.snapshot(circ)
+        if order is None:
+            order = list(nx.topological_sort(circ.dag))
+        op_order = [n for n in order if not isinstance(n, str)]
+        view = Reordered(circ, order)
+        try:
+            want_ops = py_cops(view.sequence(unwrapped=True))
+        except wu.OutOfModel:
+            continue
+        todo.append((circ, view, wu.encode(snap), ",".join(map(str, op_order)) or "-", want_ops, tag))
+    if not todo:
+        return
+    replies = lean_eval([(t[2], t[3]) for t in todo])
+    lines, items = [], []
+    for (circ, view, enc, seq, want_ops, tag), raw in zip(todo, replies):
+        rep = common.parse_reply(raw)
+        inp = {"circuit": enc, "order": seq, "gen": tag, "cops": 1}
+        res.evaluations += 1
+        res.branch(["cops:" + ("empty" if want_ops == "-" else "nonempty")])
+        if rep["_status"] != "ok" or rep.get("lin") != "1":
+            res.exact_break("isLinearExtension", input=inp, impl="order of the real sequence()", model=raw[:300])
+            continue
+        if rep.get("ops") != want_ops:
+            res.exact_break("sops.map toCOp", input=inp, impl=want_ops[:600], model=rep.get("ops", "")[:600])
+            continue
+        if rep.get("dec") != "1":
+            res.exact_break("decode (hypothesis of compile_loop_refines_stabilizer_semantics)", input=inp, impl="a circuit built from valid operations",
+                            model=raw[:300])
+            continue
+        if want_ops != "-":
+            res.nontrivial("cops", want_ops)
+        for det in (0, 1):
+            comp = scripted("stab")({}, det)
+            try:
+                with warnings.catch_warnings():
+                    warnings.simplefilter("ignore")
+                    st = comp.compile(view)
+            except Exception as e:  # noqa: BLE001
+                res.violation("compile:raised", "compile returns the state", input=inp, impl=f"{type(e).__name__}: {e}"[:300])
+                break
+            lines.append(f"circ.stab ne={circ.n_emitters} np={circ.n_photons} nc={circ.n_classical} det={det} script=- ops={rep['ops']}")
+            items.append((inp, det, tu.stab_canon(st.rep_data.data), list(comp.got_list)))
+    for r, (inp, det, canon, outs) in zip(drv.batch(lines), items):
+        if r["_status"] != "ok":
+            res.exact_break("circ.stab:error", input=dict(inp, det=det), model=r["_raw"][:200])
+            continue
+        m_outs = [int(ch) for ch in r["outs"]] if r.get("outs", "-") != "-" else []
+        if tu.canon_from_reply(r) != canon or m_outs != outs:
+            res.violation("compile:stab:differs-from-model-on-sops", "the stabilizer backend computes the state / outcomes of the verified model run on the "
+                          "compile sequence", input=dict(inp, det=det), impl=f"outs={outs}", model=r["_raw"][:900])
+        else:
+            res.traces_validated += 1
 
 
 # ------------------------------------------------------------------------------------------------------------ part B
@@ -583,13 +838,17 @@ def alias_world(ctx, res, tag_seed):
 # ------------------------------------------------------------------------------------------------------------ entry
 def run(ctx):
     res = Result()
-    res.rule = ("one evaluation = one rewrite applied to one circuit, or one library call inside an interleaving; non-trivial "
-                "rewrites: the circuit contains at least one operation; distinct by (circuit shape, rewrite) resp. (call history, circuit shape)")
+    res.rule = ("one evaluation = one rewrite applied to one circuit, one compile along a random linear extension, or one library "
+                "call inside an interleaving; non-trivial rewrites: the circuit contains at least one operation; non-trivial orders: "
+                "the order differs from the default one; distinct by (circuit shape, rewrite) resp. (circuit shape, order) resp. "
+                "(call history, circuit shape)")
     drv = Driver()
     t0 = time.time()
     try:
         n_a = 220 if ctx.quick else 1500
         budget_a = 70 if ctx.quick else 600
+        cop_cases = []
+        n_cop = 40 if ctx.quick else 300
         for k in range(n_a):
             mz = ctx.rng.random() < 0.12
             tag = "random+MZ" if mz else "random"
@@ -600,8 +859,14 @@ def run(ctx):
                 circ = gen_circuit(ctx.rng, allow_mz=mz)
             res.count("sizes", f"ops<={5 * ((len(wu.snapshot(circ)['nodes']) + 4) // 5)}")
             check_rewrites(ctx, res, drv, circ, tag, with_dm=circ.n_quantum <= 4 and ctx.rng.random() < 0.4)
+            if ctx.rng.random() < 0.5:
+                check_orders(ctx, res, drv, circ, tag, with_dm=circ.n_quantum <= 4 and ctx.rng.random() < 0.5)
+            if len(cop_cases) < n_cop and len(wu.snapshot(circ)["nodes"]) >= 1:
+                cop_cases.append((circ, None, tag))
+                cop_cases.append((circ, random_linear_extension(ctx.rng, circ.dag), tag + "+order"))
             if time.time() - t0 > budget_a or len(res.violations) > 20:
                 break
+        check_model_compile(ctx, res, drv, cop_cases)
         # exhaustive: all circuits of two operations over a small alphabet on (1 emitter, 1 photon)
         exhaustive_small(ctx, res, drv)
         n_b = 60 if ctx.quick else 300
@@ -677,6 +942,34 @@ def replay(ctx, data):
                 check_rewrites(ctx, res, drv, circ, "replay", with_dm=circ.n_quantum <= 4)
             finally:
                 REWRITES = old
+        finally:
+            drv.close()
+        for vv in res.violations:
+            print("replay:", vv["key"], vv.get("impl"))
+        return not res.violations
+    if inp.get("cops"):
+        toks = dict(t.split("=", 1) for t in inp["circuit"].split(" "))
+        circ = wu.build(wu.decode(toks))
+        drv = Driver()
+        try:
+            cases = [(circ, None, "replay")] + [(circ, random_linear_extension(ctx.rng, circ.dag), "replay") for _ in range(8)]
+            check_model_compile(ctx, res, drv, cases)
+        finally:
+            drv.close()
+        for vv in res.violations:
+            print("replay:", vv["key"], vv.get("impl"))
+        for bb in res.exact_breaks:
+            print("replay: correspondence", bb.get("correspondence"))
+        return not res.violations
+    if "order" in inp and "rewrite" not in inp:
+        toks = dict(t.split("=", 1) for t in inp["circuit"].split(" "))
+        circ = wu.build(wu.decode(toks))
+        drv = Driver()
+        try:
+            for _ in range(40):
+                check_orders(ctx, res, drv, circ, "replay", n_orders=4)
+                if res.violations:
+                    break
         finally:
             drv.close()
         for vv in res.violations:
